@@ -328,7 +328,7 @@ Print Assumptions tidy_iff.
 (* non-vacuity: two passages, every block construct, every line kind; decorated on every line of the
    mask, with the documented form, with comment text containing `//` and `<>`, with two blanks and no
    blank after `//`, with a tab *)
-Definition pp0 : pyparse := mkPyparse (fun _ => true) (fun _ => Some (0, [])).
+Definition pp0 : pyparse := mkPyparse (fun _ => true) (fun _ => Some (0, [])) (fun _ => 0).
 Definition doc (t : string) : option dcomment := Some (" ", " " ++ t).
 Definition tab : string := String (ascii_of_nat 9) "".
 
@@ -865,7 +865,7 @@ Module WholeInput.
 Import ListNotations.
 Local Open Scope string_scope.
 
-Definition pp0 : pyparse := mkPyparse (fun _ => true) (fun _ => Some (0, [])).
+Definition pp0 : pyparse := mkPyparse (fun _ => true) (fun _ => Some (0, [])) (fun _ => 0).
 
 
 (* ------------------------------------------------------------------------------------------- *)
